@@ -245,7 +245,7 @@ def report(prop, tier, seed, mod, cfgs, results, wall, write=True):
     known = {}
     inconclusive = []
     tot = dict(paths=0, decisions=0, queries=0, solver_s=0.0, obligations=0, discharged=0,
-               concolic=0, aborted=0, assumptions=0)
+               concolic=0, aborted=0, assumptions=0, cvc5_queries=0, cvc5_s=0.0)
     functions = set()
     covered = {}
     samples = []
@@ -375,7 +375,10 @@ def report(prop, tier, seed, mod, cfgs, results, wall, write=True):
             "configurations": len(cfgs), "infeasible_paths_pruned": tot["aborted"],
             "known_finding_hits": {k: len(v) for k, v in known.items()},
             "solver": {"z3": z3.get_version_string(), "queries": tot["queries"],
-                       "seconds": round(tot["solver_s"], 2)},
+                       "seconds": round(tot["solver_s"], 2), "cvc5_binary_queries": tot["cvc5_queries"],
+                       "cvc5_seconds": round(tot["cvc5_s"], 2),
+                       "note": "queries include path-feasibility queries and obligations; FP "
+                               "queries go to the cvc5 1.0.3 binary after a short z3 resource budget"},
             "bounds": getattr(mod, "BOUNDS", {}).get(tier, getattr(mod, "BOUNDS", {})),
             "functions_executed_symbolically": sorted(functions),
             "stubs": getattr(mod, "STUBS", []),
